@@ -375,6 +375,11 @@ class MultiplyOperator(Operator):
         """
         if self.__domain_is_field:
             if isinstance(self.domain, (RealNumbers, ComplexNumbers)):
+                if self.__range_is_field:
+                    # Scalar multiplication on the field itself
+                    return MultiplyOperator(np.conj(self.multiplicand),
+                                            domain=self.range,
+                                            range=self.domain)
                 # <t * v, y> = t * <v, y> = t * conj(<y, v>), hence the
                 # adjoint is y --> <y, v> also in the complex case
                 return InnerProductOperator(self.multiplicand)
@@ -383,7 +388,13 @@ class MultiplyOperator(Operator):
                     'adjoint not implemented for domain{!r}'
                     ''.format(self.domain))
         elif self.domain.is_complex:
-            return MultiplyOperator(np.conj(self.multiplicand),
+            if isinstance(self.multiplicand, LinearSpaceElement):
+                # `np.conj` needs `asarray`, which product spaces that are
+                # not power spaces do not provide
+                conj_multiplicand = self.multiplicand.conj()
+            else:
+                conj_multiplicand = np.conj(self.multiplicand)
+            return MultiplyOperator(conj_multiplicand,
                                     domain=self.range, range=self.domain)
         else:
             return MultiplyOperator(self.multiplicand,
